@@ -312,6 +312,28 @@ def dagAttempt (g : G) (cut : List Nat) (fail : Bool) : G :=
 def reorder (g : G) (c : Nat) (l : List Nat) : G × Bool :=
   if l.isPerm (g.conns c) then (setConns g c l, true) else (g, false)
 
+/-! ## two more sites that write connection lists directly (since f343608 / f195940)
+
+* `Composite._restore_connections_from_strings` (unpickling, merge-back): a stored connection is re-created by
+  `if out not in inp.connections: inp.connections.insert(0, out); out.connections.insert(0, inp)` — no
+  `connect`, hence no hint test. The channels come from an inputs panel and from the outputs panel of the same
+  flavour, so the pair is conjugate by construction; the model checks that and answers `badObs` otherwise.
+  ASSUMED, not checked by the code any more: that the stored pair is hint-compatible (it was when it was made).
+* `Node.load` in place: every old channel hands its list to the loaded channel of the same type and label,
+  every partner lists the loaded channel where it listed the old one, the old channel lets go — a seating with a
+  single stand-in (same assignments; the order in which the code writes them does not matter because the old
+  channel does not list itself and the loaded channel is unconnected).
+-/
+
+def restoreInsert (g : G) (a b : Nat) : G × Bool :=
+  if b ∈ g.conns a then (g, true)
+  else if (g.kind a).conj (g.kind b) then
+    ({ g with conns := updF (updF g.conns a (b :: g.conns a)) b (a :: g.conns b) }, true)
+  else (g, false)
+
+def moveChan (g : G) (o n : Nat) : G × Bool :=
+  if seatable g [(o, n)] [o] [n] then (seat g [(o, n)] [o] [n], true) else (g, false)
+
 /-! ## the alphabet of the current tree -/
 
 inductive Op
@@ -328,6 +350,10 @@ inductive Op
   | dagAttempt (cut : List Nat) (fail : Bool)
   /-- `_restore_firing_order` -/
   | reorder (c : Nat) (l : List Nat)
+  /-- a stored connection re-created by direct insertion -/
+  | restoreInsert (a b : Nat)
+  /-- `Node.load` in place, one channel -/
+  | moveChan (o n : Nat)
   deriving Repr
 
 def step (g : G) : Op → G × Res
@@ -340,6 +366,8 @@ def step (g : G) : Op → G × Res
   | .replace r pre => ((replaceConn g r pre).1, if (replaceConn g r pre).2 = .ok then .ok else .connErr)
   | .dagAttempt cut fail => (dagAttempt g cut fail, .ok)
   | .reorder c l => ((reorder g c l).1, .ok)
+  | .restoreInsert a b => ((restoreInsert g a b).1, .ok)
+  | .moveChan o n => ((moveChan g o n).1, .ok)
 
 def run (g : G) (ops : List Op) : G := ops.foldl (fun g o => (step g o).1) g
 
